@@ -19,11 +19,42 @@ ASSUMPTIONS = ["allocation failures are injected at the library's own override p
 
 def base_script(rng, prec, n):
     M = G.random_matrix(rng, n, rng.choice(["random", "band", "grid", "dense"]), "float"); M.vals = H.new_values(rng, M)
-    if prec == "s": G.round_single(M)
-    b = H.rand_rhs(rng, n, prec == "s")
+    M = H.to_prec(rng, M, prec)
+    b = H.rhs_prec(rng, n, prec)
     head = "ienv %d %d 200 200 100 -50 -50 -30\n" % (rng.choice([1, 4, 8]), rng.choice([1, 4]))
-    head += G.script_mat(0, M, single=(prec == "s")) + G.script_rhs(0, n, 1, n, [b], False, prec == "s") + "permc_get 0 %d\n" % rng.randint(0, 3)
+    head += G.script_mat(0, M, single=(prec in "sc")) + G.script_rhs(0, n, 1, n, [b], prec in "cz", prec in "sc") + "permc_get 0 %d\n" % rng.randint(0, 3)
     return M, b, head
+
+
+def sig_match(a, b, prec):
+    """do two result signatures match?  Real precisions: bit for bit.  Complex precisions: same info, permutations and structure, values
+    equal to rounding level (the vendor BLAS complex kernels take alignment-dependent paths, and a caller buffer is 8-byte aligned where
+    the system allocator returns 16-byte aligned blocks, so the last bits may differ between the two memory modes)."""
+    if prec in "sd":
+        return a == b
+    tol = 1e-9 if prec == "z" else 2e-4
+    def num(x):
+        return float.fromhex(x) if isinstance(x, str) else float(x)
+    def flat(x, out):
+        if isinstance(x, (tuple, list)):
+            for y in x: flat(y, out)
+        else:
+            out.append(x)
+        return out
+    def walk(x, y):
+        if isinstance(x, (tuple, list)):
+            if not isinstance(y, (tuple, list)) or len(x) != len(y): return False
+            leaves = [v for v in x if not isinstance(v, (tuple, list))]
+            if leaves and len(leaves) == len(x) and any(isinstance(v, (str, float)) for v in leaves):
+                try:
+                    xs = [num(v) for v in x]; ys = [num(v) for v in y]
+                except ValueError:
+                    return x == y
+                m = max([abs(v) for v in xs + ys] + [0.0])
+                return all(abs(u - v) <= tol * m for u, v in zip(xs, ys))
+            return all(walk(u, v) for u, v in zip(x, y))
+        return x == y
+    return walk(a, b)
 
 
 def classify(ops, done, rc, err, n):
@@ -57,12 +88,12 @@ def run(ctx):
             ctx.violation("workspace-overlap:threads", "real threads: work space blocks overlap or leave the buffer: " + rc_["out"][:300], rc_)
     rng = random.Random(ctx.seed * 14 + 1414)
     C.build_lib("asan"); C.build_lib("fault")
-    asan = C.build_harness_all_prec("h_drv.c", "asan", precs="ds")
-    fault = C.build_harness_all_prec("h_drv.c", "fault", precs="ds")
+    asan = C.build_harness_all_prec("h_drv.c", "asan", precs="dszc")
+    fault = C.build_harness_all_prec("h_drv.c", "fault", precs="dszc")
     plain_jobs = []; fault_jobs = []
-    ncfg = 10 if q else 120
+    ncfg = 12 if q else 120
     for i in range(ncfg):
-        prec = rng.choice("ds"); n = rng.choice([2, 4, 7, 12, 20]); P = rng.choice([1, 2, 4])
+        prec = "dszc"[i % 4]; n = rng.choice([2, 4, 7, 12, 20]); P = rng.choice([1, 2, 4])
         M, b, head = base_script(rng, prec, n)
         call = lambda lw: "gssvx 0 0 %d 0 0 0 0 0x1p+0 8 4 0 %d\n" % (P, lw)
         # (a) query, (b) sufficient, reference
@@ -118,12 +149,12 @@ def run(ctx):
             else:
                 if res.get("inside") != 1: ctx.violation("sufficient:outside-buffer", "L/U storage not inside the caller's buffer", blob)
                 r = refs.get(s.split("gssvx")[0])
-                if r is not None and r != sig: ctx.violation("sufficient:differs-from-internal", "results with caller workspace differ from internal-memory results", blob)
+                if r is not None and not sig_match(r, sig, prec): ctx.violation("sufficient:differs-from-internal", "results with caller workspace differ from internal-memory results", blob)
         else:
             if not ok:
                 ctx.violation("userwork-too-small:" + outcome, "caller workspace of %d bytes (n=%d, P=%d): %s" % (lw, n, P, outcome), blob)
     for key, kind, sig, blob in seqs:
-        if key in refs and refs[key] != sig:
+        if key in refs and not sig_match(refs[key], sig, blob["prec"]):
             ctx.violation("seq:differs-from-fresh", "last call of %s gives results differing from the same call in a fresh process" % kind, blob)
     # (d)
     def count_allocs(j):
@@ -156,12 +187,57 @@ def run(ctx):
             continue
         if not ok:
             ctx.violation("alloc-fault:" + outcome, "allocation request %d of %d fails (%s): %s" % (k, K, site, outcome), blob)
+    # (b3) re-factorization in the SAME caller buffer with MORE threads than the first call: the head of the buffer holds the factors,
+    # the workers' arrays must fit in what is left or the call must say so (info > n); schedule perturbation keeps the workers alive together.
+    from vlib import exact as X
+    from fractions import Fraction
+    rj = []
+    for i in range(24 if q else 400):
+        prec = "czsd"[i % 4]; n = rng.choice([64, 100, 144]); P = rng.choice([2, 3, 4]); cplx = prec in "cz"; single = prec in "sc"
+        M = G.random_matrix(rng, n, "grid", "float"); M.vals = H.new_values(rng, M); M = H.to_prec(rng, M, prec)
+        b = H.rhs_prec(rng, n, prec)
+        head = "perturb 3 %d\nienv 8 4 200 200 100 %d %d %d\n" % ((i + 1,) + rng.choice([(-8, -8, -6), (-20, -20, -10)]))
+        head += G.script_mat(0, M, single=single) + G.script_rhs(0, n, 1, n, [b], cplx, single) + "permc_get 0 %d\n" % rng.choice([0, 2, 3])
+        V2 = [((v[0] * 1.5, v[1]) if cplx else v * 1.5) for v in M.vals]
+        rj.append((prec, n, P, head, M, V2, b, rng.choice([1.0, 1.0, 1.05, 1.3])))
+    def run_rj(j):
+        prec, n, P, head, M, V2, b, f = j
+        ops, done, rc, err = D.run_script(asan[prec], head + "gssvx 0 0 1 0 0 0 0 0x1p+0 8 4 0 -1\nquit\n", timeout=60)
+        g = [o for o in ops if o.get("op") == "gssvx"]
+        if rc != 0 or not g or "mem" not in g[-1] or g[-1]["mem"][1] <= 0: return j, None, None
+        lw = int(g[-1]["mem"][1] * f)
+        cplx = prec in "cz"; single = prec in "sc"
+        s = head + "gssvx 0 0 1 0 0 0 0 0x1p+0 8 4 0 %d\n" % lw + "setvals 0 " + G.fmt_vals(V2, cplx, single) + "\n" + G.script_rhs(0, n, 1, n, [b], cplx, single)
+        s += "gssvx 0 0 %d 0 0 1 0 0x1p+0 8 4 0 %d\nquit\n" % (P, lw)
+        return j, lw, (s,) + tuple(D.run_script(asan[prec], s, timeout=120))
+    with ThreadPoolExecutor(C.NPROC) as ex:
+        routs = list(ex.map(run_rj, rj))
+    for (prec, n, P, head, M, V2, b, f), lw, out in routs:
+        if out is None: hist["refactor-more-threads:no-estimate"] += 1; continue
+        s, ops, done, rc, err = out
+        blob = {"kind": "refactor-more-threads", "prec": prec, "n": n, "P": P, "lwork": lw, "script": s, "rc": rc, "stderr": (err or "")[-600:]}
+        gs = [o for o in ops if o.get("op") == "gssvx"]
+        if rc == 0 and done and gs and gs[0]["info"] != 0:
+            hist["refactor-more-threads:first-call-short"] += 1; continue
+        ok, outcome = classify(ops, done, rc, err, n)
+        hist["refactor-more-threads:%s" % outcome.split("@")[0]] += 1
+        if not ok:
+            ctx.violation("refactor-more-threads:" + outcome, "re-factorization with %d threads in the caller buffer of a 1-thread factorization (lwork=%d, n=%d, prec=%s): %s" % (P, lw, n, prec, outcome), blob); continue
+        if outcome == "success":
+            r = gs[-1]
+            M2 = G.Mat(n, M.colptr, M.rowind, list(V2), M.cplx)
+            if prec in "sc": G.round_single(M2)
+            x = S.unpack_cols(r["X"], n, n, 1, M.cplx)[0]
+            om = X.backward_error(M2, x, b, 0)
+            if om is None or om > Fraction(1000 * (n + 1)) * Fraction(2.0 ** (-24 if prec in "sc" else -53)):
+                ctx.violation("refactor-more-threads:wrong-solution", "re-factorization with %d threads in the caller buffer of a 1-thread factorization returned info=%d with a wrong X (backward error %s; lwork=%d, n=%d, prec=%s)" % (
+                    P, r["info"], "inf" if om is None else "%.2e" % float(om), lw, n, prec), blob)
     # (b') caller workspace large enough with several worker threads: "results match the internally-allocated mode".
     # Diagonally dominant inputs (nonsingular for every pivot order) with more threads than work, so that workers start and
     # leave at different times; each factorization is judged by the verified checkers and must report info = 0.
     thr = []
     for i, P in enumerate((2, 3, 4, 8)):
-        thr += S.sweep(ctx, 150 if q else 2500, 24, precs="dz" if q else "sdcz", drivers=("gssvx",), flavour="asan",
+        thr += S.sweep(ctx, 150 if q else 2500, 24, precs="sdcz", drivers=("gssvx",), flavour="asan",
                        force={"nprocs": P, "lwork": 4000000, "dominant": True}, seed_offset=1400 + i)
     S.judge(ctx, thr, ["wfL", "wfU", "permr", "permc", "lu"], "threads+userwork", need_info0=False)   # (the residual-vs-factors judge is for the simple driver: p?gssvx refines X)
     for r in thr:
